@@ -136,6 +136,7 @@ PROPS = {
     "C09": dict(
         title="query iteration: lazy, fused, deterministic",
         props_module="PvModel.Props.C09",
+        props_extra=["PvModel.Props.C09Sequence"],
         rule="tree programs with several disequalities, search programs (half with an infinite producer and take(n)), FD programs; each run twice in "
              "one process, under 3 forced iteration orders of the constraint store (permutation hook), to exhaustion + 3 further next() calls "
              "(fused), with take(n) vs take(n+4) (lazy), and the whole harness again in fresh processes (fresh hash seeds: 2 in quick, 8 in "
@@ -143,7 +144,7 @@ PROPS = {
              "distinct case lines",
         trusted=SEARCH_TRUST + ["that std's HashMap/HashSet iterate in SOME order per process is trusted; the model quantifies over all orders"],
         assumptions=[],
-        open=["sequence-level order independence for arbitrary programs under different iteration orders (beyond the atom-level C09_order_independent_tree) is carried by the forced-order and multi-process runs"],
+        open=["sequence-level order independence is proved for ==/!= programs of conj/conde/fresh (C09_sequence_order_free, C09_answers_order_free); for programs with relation calls, committed choice or FD constraints under different iteration orders it is carried by the forced-order and multi-process runs (with FD constraints it is in fact false: known findings D20/D21)"],
         multi_process=dict(quick=2, thorough=8),
     ),
     "C21": dict(
